@@ -96,6 +96,48 @@ pub fn fixtures() -> Vec<(String, Ledger)> {
     out
 }
 
+// ----- the real binary against the library, on the same ledger ----------------------------------
+
+/// `cgt-tool report in.cgt --format json [--year Y]` against `calculate()` called in-process with the
+/// embedded exemption table and the bundled rates (what the binary uses): the same ledger must give the
+/// same JSON report, or be refused by both. A handful of cases per run and property: this is the layer
+/// between the command line and the library (reading and joining files, option handling, which report
+/// builder is called), which the in-process oracles never pass through.
+pub fn cli_crosscheck(ctx: &mut Ctx, prop: &str, l: &[GTx], year: Option<i32>) {
+    use crate::cli;
+    if !cli::available() || l.is_empty() { return; }
+    let txs = ledger::to_txs(l);
+    let cfg = crate::run_impl::config_from(&crate::run_impl::embedded_exemptions());
+    let Ok(fx) = cgt_money::load_default_cache() else { return };
+    let lib = std::panic::catch_unwind(std::panic::AssertUnwindSafe(|| cgt_core::calculator::calculate(&txs, year, Some(&fx), &cfg)));
+    let Ok(lib) = lib else { return };   // panics are C15's subject
+    let sc = cli::Scratch::new();
+    sc.write("in.cgt", &ledger::dsl(l));
+    let ys = year.map(|y| y.to_string());
+    let mut args = vec!["report", "in.cgt", "--format", "json"];
+    if let Some(y) = &ys { args.push("--year"); args.push(y.as_str()); }
+    let o = cli::run(&sc, &args);
+    ctx.ev.count("cli-crosschecks");
+    let shown = format!("cgt-tool {}", args.join(" "));
+    match lib {
+        Ok(rep) => {
+            let want = serde_json::to_value(&rep).unwrap_or_default();
+            let got: serde_json::Value = serde_json::from_slice(&o.stdout).unwrap_or_default();
+            if o.code != Some(0) {
+                ctx.ev.violation("oracle", format!("the library produces a report but `{shown}` exits {:?}: {}", o.code, o.stderr.lines().next().unwrap_or("")), replay_text(prop, "oracle (CLI vs library)", "CLI refuses what the library accepts", l, &[shown.clone()]));
+            } else if got != want {
+                let what = ["tax_years", "holdings", "transactions"].iter().find(|k| got[**k] != want[**k]).map(|k| k.to_string()).unwrap_or_else(|| "top level".into());
+                ctx.ev.violation("oracle", format!("`{shown}` prints a different report than the library computes for the same ledger (first difference under `{what}`)"), replay_text(prop, "oracle (CLI vs library)", &format!("JSON differs under {what}"), l, &[shown.clone()]));
+            }
+        }
+        Err(_) => {
+            if o.code == Some(0) || !o.stdout.is_empty() {
+                ctx.ev.violation("oracle", format!("the library refuses the ledger but `{shown}` exits {:?} with {} bytes on stdout", o.code, o.stdout.len()), replay_text(prop, "oracle (CLI vs library)", "CLI accepts what the library refuses", l, &[shown.clone()]));
+            }
+        }
+    }
+}
+
 // ----- shapes of a ledger, for the distribution counters and known-finding classes ------------
 
 pub fn multi_sell_day(l: &[GTx]) -> bool {
@@ -142,13 +184,14 @@ pub fn well_formed(l: &[GTx]) -> bool {
     })
 }
 
-/// the standard stream of matcher ledgers: corpus, fixtures, then generated (general + contention)
+/// the standard stream of matcher ledgers: corpus, fixtures, then generated (general, contention,
+/// consolidation, and one long single-security history in forty)
 pub fn matcher_cases(prop: &str, ctx: &Ctx, cfg: &GenCfg, n: u64) -> Vec<(String, Ledger)> {
     let mut cases = corpus(prop);
     cases.extend(fixtures());
     let mut r = Rng::new(ctx.seed);
     for i in 0..n {
-        let l = if i % 16 == 7 && cfg.splits { ledger::gen_consolidation(&mut r, cfg) } else if i % 3 == 2 { ledger::gen_contention(&mut r, cfg) } else { ledger::gen_ledger(&mut r, cfg) };
+        let l = if i % 40 == 13 { ledger::gen_long(&mut r, cfg) } else if i % 16 == 7 && cfg.splits { ledger::gen_consolidation(&mut r, cfg) } else if i % 3 == 2 { ledger::gen_contention(&mut r, cfg) } else { ledger::gen_ledger(&mut r, cfg) };
         cases.push((format!("gen#{i}"), l));
     }
     cases
